@@ -3502,10 +3502,6 @@ RegistryT<ArgsT<TG_, TSL_, TRL_, NCC_, NOC_, NOU_, TRO_ HFSM2_IF_SERIALIZATION(,
 			{
 				requested   = parent.prong;
 			}
-			else {
-				parent = forkParent(parent.forkId);
-				break;
-			}
 		}
 		else
 		if (parent.forkId < 0)
@@ -3841,10 +3837,6 @@ RegistryT<ArgsT<TG_, TSL_, TRL_, NCC_, 0, 0, TRO_ HFSM2_IF_SERIALIZATION(, NSB_)
 				active     != parent.prong)
 			{
 				requested  = parent.prong;
-			}
-			else {
-				parent = forkParent(parent.forkId);
-				break;
 			}
 		}
 
